@@ -1,4 +1,5 @@
 mod c11;
+mod cxxgen;
 mod drive;
 mod front;
 mod front2;
@@ -39,6 +40,7 @@ fn main() {
                 "C12" => front2::check_c12(tier),
                 "C11" => c11::check(tier),
                 "C13" => pygen::check(tier),
+                "C14" => cxxgen::check(tier),
                 p @ ("C01" | "C02" | "C03" | "C04" | "C05" | "C06" | "C15" | "C17" | "C18") => rustgen::check(p, tier),
                 _ => usage(),
             };
@@ -59,6 +61,31 @@ fn main() {
         "supported" => {
             let tier = tier_of(args.get(2).map(|s| s.as_str()).unwrap_or("quick"));
             front::print_supported(tier);
+        }
+        "gen" => {
+            // pdlmc gen <json|rust|python|cxx|java> <file.pdl> [java out dir]
+            let text = std::fs::read_to_string(&args[3]).expect("read");
+            let run = drive::run_text_named(&text, "t.pdl");
+            if run.outcome != drive::Outcome::Accepted {
+                eprintln!("{:?}", run.outcome);
+                std::process::exit(1);
+            }
+            let b = match args[2].as_str() {
+                "json" => drive::Backend::Json,
+                "rust" => drive::Backend::Rust,
+                "python" => drive::Backend::Python,
+                "cxx" => drive::Backend::Cxx,
+                "java" => drive::Backend::Java,
+                _ => usage(),
+            };
+            let dir = args.get(4).map(std::path::PathBuf::from);
+            match drive::generate(b, &run, dir.as_deref()) {
+                Ok(s) => print!("{s}"),
+                Err(e) => {
+                    eprintln!("generator failed: {e}");
+                    std::process::exit(1);
+                }
+            }
         }
         "show" => {
             let text = std::fs::read_to_string(&args[2]).expect("read");
